@@ -44,6 +44,7 @@ func (f *Frame) builtin(b *ssa.Builtin, c *ssa.CallCommon, pos token.Pos) []Val 
 		}
 		return []Val{f.freshVal("len", types.Typ[types.Int])}
 	case "append":
+		f.siteCall(c, pos)
 		return []Val{f.builtinAppend(c, pos)}
 	case "copy":
 		return []Val{f.builtinCopy(c, pos)}
